@@ -1,5 +1,5 @@
 /-
-  C06, policy level: `partialConds` / `partialScope` / `partialPolicy` are sound on `partialDomain`.
+  C06, policy level: `partialConds` / `partialScope` / `partialPolicy` are sound when no ignore marker is met (`partialDomain`).
 -/
 import CedarGoProofs.Lemmas.C06
 set_option linter.unusedSimpArgs false
@@ -100,17 +100,28 @@ theorem drop_true {env : Env} {c : Bool × Expr} {conds : List (Bool × Expr)} {
   | none => simp only [CondsAgree, satConds, List.all_cons] at ih ⊢; simp [ih]
   | some cs => simp only [CondsAgree, satConds, List.all_cons] at ih ⊢; simp [ih, hc]
 
-/-- the condition loop of `PartialPolicy` on the domain -/
-theorem partialConds_sound {σ : String → Value} {envH env : Env} (C : CompletesVia σ envH env) (effect : Effect) :
+/-- a condition whose partial evaluation folded to a literal: how the original condition is satisfied -/
+theorem sat_cond_of_lit {γ : Value → Value} [Completion γ] {env : Env} {w : Bool} {body : Expr} {v : Value}
+    (hs : Sound γ env body (.ok (.lit v))) :
+    sat (condToExpr (w, body)) env = (match v with | .bool b => b == w | _ => false) := by
+  cases v with
+  | bool b => exact sat_cond_of_val (lit_bool_eval hs)
+  | _ =>
+    obtain ⟨v', hev, hnb⟩ := lit_nonbool_eval hs (by intro b hb; cases hb)
+    rw [sat_cond_of_val hev]
+    cases v' <;> first | exact absurd rfl (hnb _) | rfl
+
+/-- the condition loop of `PartialPolicy` when no condition reports `errIgnore` -/
+theorem partialConds_sound {γ : Value → Value} [Completion γ] {envH env : Env} (C : CompletesVia γ envH env) (effect : Effect) :
     ∀ conds : List (Bool × Expr),
-      (conds.all fun c => domE envH c.2 && (partialE envH c.2).notIgn && (partialE envH c.2).cleanLit) = true →
+      (conds.all fun c => (partialE envH c.2).notIgn) = true →
       CondsAgree env conds (partialConds envH effect conds)
   | [], _ => by simp [partialConds, CondsAgree]
   | (w, body) :: rest, h => by
     simp only [List.all_cons, Bool.and_eq_true] at h
-    obtain ⟨⟨⟨hdom, hni⟩, hcl⟩, hrest⟩ := h
+    obtain ⟨hni, hrest⟩ := h
     have ih := partialConds_sound C effect rest hrest
-    have hs := partialE_sound C body hdom
+    have hs := partialE_sound C body
     simp only [partialConds]
     cases hp : partialE envH body with
     | var s => exact cons_agree rfl ih
@@ -120,13 +131,12 @@ theorem partialConds_sound {σ : String → Value} {envH env : Env} (C : Complet
       simp only [condStep, CondsAgree, satConds, List.all_cons, List.all_nil, Bool.and_true]
       rw [sat_cond_of_err hs, sat_cond_of_err ⟨_, eval_extError _⟩]; simp
     | ok body' =>
-      rw [hp] at hs hcl
+      rw [hp] at hs
       cases hl : body'.isLit
       · rw [condStep_nonlit _ _ _ _ _ hl]
         exact cons_agree (sat_cond_of_R ((Sound.ok_nonlit hl).mp hs)) ih
       · obtain ⟨v, rfl⟩ := isLit_iff.mp hl
-        have hev := lit_clean_eval hs hcl
-        have hsat := sat_cond_of_val (w := w) hev
+        have hsat := sat_cond_of_lit (w := w) hs
         cases v with
         | bool b =>
           simp only [condStep]
@@ -242,10 +252,6 @@ theorem sat_scope_entity (env : Env) (v : Var) (ty id : String) (hv : eval (.var
     · simp only [bne, ht, Bool.not_true, Bool.false_eq_true, if_false, Bool.true_and]
       exact sat_doInRes _
 
-def envPart (v : Var) (env : Env) : Value :=
-  match v with
-  | .principal => env.principal | .action => env.action | .resource => env.resource | .context => env.context
-
 theorem eval_var_complete (σ : String → Value) (envH : Env) (v : Var) :
     eval (.var v) (completeEnv σ envH) = .ok ((envPart v envH).substAll σ) := by
   cases v <;> rfl
@@ -255,9 +261,10 @@ def ScopeAgree (env : Env) (v : Var) (s : Scope) : Option Scope → Prop
   | some s' => sat (scopeToExpr v s') env = sat (scopeToExpr v s) env
   | none => sat (scopeToExpr v s) env = false
 
-theorem partialScope_sound (σ : String → Value) (envH env : Env) (hentEq : envH.entities = env.entities) (v : Var) (s : Scope)
+theorem partialScope_sound (γ : Value → Value) [Completion γ] (envH env : Env) (hentEq : envH.entities = env.entities)
+    (v : Var) (s : Scope)
     (hni : (envPart v envH).isIgnore = false)
-    (hpart : eval (.var v) env = .ok ((envPart v envH).substAll σ)) :
+    (hpart : eval (.var v) env = .ok (γ (envPart v envH))) :
     ScopeAgree env v s (partialScope envH (envPart v envH) s) := by
   unfold partialScope scopeEval
   cases hvar : (envPart v envH).isVariable
@@ -265,7 +272,7 @@ theorem partialScope_sound (σ : String → Value) (envH env : Env) (hentEq : en
     cases hent : envPart v envH with
     | entity ty id =>
       have hev : eval (.var v) env = .ok (.entity ty id) := by
-        rw [hpart, hent, substAll_entity_notVar σ ty id (by rw [← hent]; exact hvar)]
+        rw [hpart, hent, Completion.entity (γ := γ) ty id (by rw [← hent]; exact hvar)]
       have hb := sat_scope_entity env v ty id hev s
       have hsb : scopeBool envH ty id s = scopeBool env ty id s := by cases s <;> simp only [scopeBool, hentEq]
       simp only [hsb]
@@ -307,16 +314,18 @@ theorem satisfied_eq (p : Policy) (env : Env) :
   cases hp : p.principal.isAll <;> cases ha : p.action.isAll <;> cases hr : p.resource.isAll <;>
     simp [sat_scope_all, hp, ha, hr, sat_lit_true, Bool.and_assoc]
 
-theorem partialPolicy_sound (σ : String → Value) (envH : Env) (p : Policy) (hd : partialDomain envH p = true) :
+/-- the general form: `env` is any environment with the same store whose request parts are the completed parts of `envH` -/
+theorem partialPolicy_sound_gen (γ : Value → Value) [Completion γ] (envH env : Env) (hent : envH.entities = env.entities)
+    (hparts : ∀ x, eval (.var x) env = .ok (γ (envPart x envH))) (p : Policy) (hd : partialDomain envH p = true) :
     match partialPolicy envH p with
-    | some r => satisfied r (completeEnv σ envH) = satisfied p (completeEnv σ envH)
-    | none => satisfied p (completeEnv σ envH) = false := by
+    | some r => satisfied r env = satisfied p env
+    | none => satisfied p env = false := by
   simp only [partialDomain, Bool.and_eq_true, Bool.not_eq_true'] at hd
   obtain ⟨⟨⟨hp, ha⟩, hr⟩, hc⟩ := hd
-  have h1 := partialScope_sound σ envH (completeEnv σ envH) rfl .principal p.principal hp (eval_var_complete σ envH _)
-  have h2 := partialScope_sound σ envH (completeEnv σ envH) rfl .action p.action ha (eval_var_complete σ envH _)
-  have h3 := partialScope_sound σ envH (completeEnv σ envH) rfl .resource p.resource hr (eval_var_complete σ envH _)
-  have h4 := partialConds_sound (completesVia_complete σ envH) p.effect p.conditions hc
+  have h1 := partialScope_sound γ envH env hent .principal p.principal hp (hparts _)
+  have h2 := partialScope_sound γ envH env hent .action p.action ha (hparts _)
+  have h3 := partialScope_sound γ envH env hent .resource p.resource hr (hparts _)
+  have h4 := partialConds_sound (completesVia_of_parts hent hparts) p.effect p.conditions hc
   simp only [envPart] at h1 h2 h3
   unfold partialPolicy
   cases hs1 : partialScope envH envH.principal p.principal with
@@ -338,6 +347,12 @@ theorem partialPolicy_sound (σ : String → Value) (envH : Env) (p : Policy) (h
           simp only [ScopeAgree] at h1 h2 h3
           simp only [CondsAgree] at h4
           simp only [satisfied_eq, h1, h2, h3, h4]
+
+theorem partialPolicy_sound (σ : String → Value) (envH : Env) (p : Policy) (hd : partialDomain envH p = true) :
+    match partialPolicy envH p with
+    | some r => satisfied r (completeEnv σ envH) = satisfied p (completeEnv σ envH)
+    | none => satisfied p (completeEnv σ envH) = false :=
+  partialPolicy_sound_gen (Value.substAll σ) envH (completeEnv σ envH) rfl (eval_var_complete σ envH) p hd
 
 /-! ## ignored parts: permit policies only widen -/
 
@@ -369,16 +384,12 @@ theorem drop_widen {env : Env} {c : Bool × Expr} {conds : List (Bool × Expr)} 
     simp only [CondsWiden, satConds, List.all_cons, Bool.and_eq_true] at ih ⊢
     intro h; exact ih h.2
 
-theorem partialConds_widen {σ : String → Value} {envH env : Env} (C : CompletesVia σ envH env) :
-    ∀ conds : List (Bool × Expr),
-      (conds.all fun c => domE envH c.2 && (partialE envH c.2).cleanLit) = true →
-      CondsWiden env conds (partialConds envH .permit conds)
-  | [], _ => by simp [partialConds, CondsWiden]
-  | (w, body) :: rest, h => by
-    simp only [List.all_cons, Bool.and_eq_true] at h
-    obtain ⟨⟨hdom, hcl⟩, hrest⟩ := h
-    have ih := partialConds_widen C rest hrest
-    have hs := partialE_sound C body hdom
+theorem partialConds_widen {γ : Value → Value} [Completion γ] {envH env : Env} (C : CompletesVia γ envH env) :
+    ∀ conds : List (Bool × Expr), CondsWiden env conds (partialConds envH .permit conds)
+  | [] => by simp [partialConds, CondsWiden]
+  | (w, body) :: rest => by
+    have ih := partialConds_widen C rest
+    have hs := partialE_sound C body
     simp only [partialConds]
     cases hp : partialE envH body with
     | var s => exact cons_widen id ih
@@ -388,13 +399,12 @@ theorem partialConds_widen {σ : String → Value} {envH env : Env} (C : Complet
       simp only [condStep, CondsWiden, satConds, List.all_cons, List.all_nil, Bool.and_true]
       rw [sat_cond_of_err hs]; simp
     | ok body' =>
-      rw [hp] at hs hcl
+      rw [hp] at hs
       cases hl : body'.isLit
       · rw [condStep_nonlit _ _ _ _ _ hl]
         exact cons_widen (by rw [sat_cond_of_R ((Sound.ok_nonlit hl).mp hs)]; exact id) ih
       · obtain ⟨v, rfl⟩ := isLit_iff.mp hl
-        have hev := lit_clean_eval hs hcl
-        have hsat := sat_cond_of_val (w := w) hev
+        have hsat := sat_cond_of_lit (w := w) hs
         cases v with
         | bool b =>
           simp only [condStep]
@@ -421,7 +431,7 @@ theorem eval_var_completeI (σ : String → Value) (ι : Var → Value) (envH : 
 theorem partialScope_widen (σ : String → Value) (ι : Var → Value) (envH : Env) (v : Var) (s : Scope) :
     ScopeWiden (completeEnvI σ ι envH) v s (partialScope envH (envPart v envH) s) := by
   cases hi : (envPart v envH).isIgnore
-  · have := partialScope_sound σ envH (completeEnvI σ ι envH) rfl v s hi (eval_var_completeI σ ι envH v hi)
+  · have := partialScope_sound (Value.substAll σ) envH (completeEnvI σ ι envH) rfl v s hi (eval_var_completeI σ ι envH v hi)
     cases hps : partialScope envH (envPart v envH) s with
     | none => rw [hps] at this; exact this
     | some s' => rw [hps] at this; simp only [ScopeAgree] at this; simp only [ScopeWiden]; rw [this]; exact id
@@ -438,13 +448,13 @@ theorem partialScope_widen (σ : String → Value) (ι : Var → Value) (envH : 
     intro _; rfl
 
 theorem partialPolicy_widen (σ : String → Value) (ι : Var → Value) (envH : Env) (p : Policy)
-    (hperm : p.effect = .permit) (hd : partialDomainI envH p = true)
+    (hperm : p.effect = .permit)
     (hsat : satisfied p (completeEnvI σ ι envH) = true) :
     ∃ r, partialPolicy envH p = some r ∧ satisfied r (completeEnvI σ ι envH) = true := by
   have h1 := partialScope_widen σ ι envH .principal p.principal
   have h2 := partialScope_widen σ ι envH .action p.action
   have h3 := partialScope_widen σ ι envH .resource p.resource
-  have h4 := partialConds_widen (completesVia_ignore σ ι envH) p.conditions hd
+  have h4 := partialConds_widen (completesVia_ignore σ ι envH) p.conditions
   simp only [envPart] at h1 h2 h3
   rw [satisfied_eq] at hsat
   simp only [Bool.and_eq_true] at hsat
